@@ -9,11 +9,11 @@ META = {
     "level": "exploration",
     "engine": "small",
     "technique": "TLA+ spec TextRepr (constructor pipeline decode/validate/store + comparison model) model-checked with TLC; every TLC-enumerated cell concretised with seeded bytes and decided on the real Text/Identifier constructors, decoders and comparison impls (TABLE binding: spec as enumerator and oracle)",
-    "text": "TLC enumerates 888 construction cells (text|ident x 11 content classes x lengths 0/1/3/21/22/23/1024 around the 22-byte inline limit (thorough: 20 lengths incl. 7/8/9 around rkyv's inline string limit, 63..65, 255/256, 4096) x 15 paths: FromStr, TryFrom<String>, TryFrom<Text>, TryFrom<&CStr>, serde JSON, postcard, rkyv access / from_bytes / ArchivedIdentifier::deserialize on crafted archives, Add, From<Identifier>, clone, Default, text!/ident! statics) and 3582 comparison cells (same / prefix / first-byte / last-byte relations x static|inline|heap|archived forms), checks ExistsIffValid and CompareByContent on the model, and emits each cell with its outcome. The engine concretises each cell several times with seeded bytes inside the class and decides: value exists iff content valid; an existing value holds exactly the presented content and satisfies its invariant; Eq/Ord/Hash/const_eq/PartialEq<str>/Borrow<str> lookups agree with the contents across storage forms; no panic.",
+    "text": "TLC enumerates 888 construction cells (text|ident x 11 content classes x lengths 0/1/3/21/22/23/1024 around the 22-byte inline limit (thorough: 20 lengths incl. 7/8/9 around rkyv's inline string limit, 63..65, 255/256, 4096) x 15 paths: FromStr, TryFrom<String>, TryFrom<Text>, TryFrom<&CStr>, serde JSON, postcard, rkyv access / from_bytes / ArchivedIdentifier::deserialize on crafted archives, Add, From<Identifier>, clone, Default, text!/ident! statics) and 4602 comparison cells (same / prefix / first-byte / last-byte / length-order-opposite-to-content-order relations x static|inline|heap|archived forms), checks ExistsIffValid and CompareByContent on the model, and emits each cell with its outcome. The engine concretises each cell several times with seeded bytes inside the class and decides: value exists iff content valid; an existing value holds exactly the presented content and satisfies its invariant; Eq/Ord/Hash/const_eq/PartialEq<str>/Borrow<str> lookups agree with the contents across storage forms; no panic.",
     "note": "Exploration: classes and lengths are enumerated exhaustively, bytes inside a class are sampled (reps per cell: 20 quick, 300 thorough). The storage form of a value is not observable (Repr is private): forms are selected through path and length. Macros reject invalid literals at compile time, so the static path is exercised for valid contents only. rkyv access_unchecked (unsafe) is out of scope.",
 }
 
-CELLS = {"MC_TextRepr.cfg": 4470, "MC_TextRepr_thorough.cfg": 12964}
+CELLS = {"MC_TextRepr.cfg": 5490, "MC_TextRepr_thorough.cfg": 15856}
 
 
 def run(ctx):
@@ -31,7 +31,8 @@ def run(ctx):
     if len(cells) != CELLS[cfg]:
         raise verif.ToolError("expected %d cells, TLC emitted %d" % (CELLS[cfg], len(cells)))
     # design switches: a path that skips validation / Ord by storage form must violate the invariants
-    for bcfg, inv in (("MC_TextRepr_skip.cfg", "ExistsIffValid"), ("MC_TextRepr_ordform.cfg", "CompareByContent")):
+    for bcfg, inv in (("MC_TextRepr_skip.cfg", "ExistsIffValid"), ("MC_TextRepr_ordform.cfg", "CompareByContent"),
+                      ("MC_TextRepr_lenfirst.cfg", "CompareByContent")):
         rb = ctx.tlc("TextRepr", bcfg, allow_violation=True, coverage=False)
         ctx.states -= rb.states
         ctx.transitions -= rb.generated
